@@ -86,3 +86,117 @@ def check_memo(fn, memo):
     miss_p = (vp | cp) - kp
     miss_a = ((va | ca) - ka - {container_attr}) if memo.shared else set()
     return sorted(miss_p), sorted(miss_a), sorted(kp), sorted(ka)
+
+
+# ---------------------------------------------------------------------------------------------- attribute memos
+class AttrMemo:
+    def __init__(self, cls, method, attr, fn, store, deps, validated):
+        self.cls, self.method, self.attr, self.fn, self.store = cls, method, attr, fn, store
+        self.deps, self.validated = deps, validated
+
+
+def _base_attr(text):
+    """'self.network.prefix_wif' -> 'network'"""
+    parts = text.split('.')
+    return parts[1] if len(parts) > 1 and parts[0] == 'self' else None
+
+
+def class_methods(minfo, cname):
+    return {q.split('.', 1)[1]: f for q, f in minfo.functions.items() if q.startswith(cname + '.')}
+
+
+def _is_property(f):
+    return any((isinstance(d, ast.Name) and d.id == 'property') for d in f.decorator_list)
+
+
+def attr_reads(fn, methods, depth=2, _seen=None):
+    """base attributes of self read anywhere in fn (properties of the class expanded)"""
+    _seen = _seen if _seen is not None else set()
+    out = set()
+    for n in ast.walk(fn):
+        if isinstance(n, ast.Attribute) and isinstance(n.value, ast.Name) and n.value.id == 'self' and isinstance(n.ctx, ast.Load):
+            a = n.attr
+            if a in methods and _is_property(methods[a]) and depth > 0 and a not in _seen:
+                _seen.add(a)
+                out |= attr_reads(methods[a], methods, depth - 1, _seen)
+            elif a not in methods:
+                out.add(a)
+    return out
+
+
+def attr_memos(minfo, cname):
+    """memoised attributes of class cname: `self._c = E` stored under a test that mentions self._c (or after an early return of it)"""
+    methods = class_methods(minfo, cname)
+    out = []
+    for mname, f in methods.items():
+        if mname == '__init__':
+            continue
+        tests_attr = {}
+        for n in ast.walk(f):
+            if isinstance(n, ast.If):
+                for a in ast.walk(n.test):
+                    if isinstance(a, ast.Attribute) and isinstance(a.value, ast.Name) and a.value.id == 'self' and a.attr.startswith('_'):
+                        tests_attr.setdefault(a.attr, []).append(n)
+        for n in ast.walk(f):
+            if isinstance(n, ast.Assign) and len(n.targets) == 1 and isinstance(n.targets[0], ast.Attribute) and isinstance(n.targets[0].value, ast.Name) \
+                    and n.targets[0].value.id == 'self' and n.targets[0].attr in tests_attr:
+                c = n.targets[0].attr
+                if isinstance(n.value, ast.Constant) and n.value.value in (None, '', b'', False, 0):
+                    continue        # a reset, not a fill
+                # the fill must be returned / be the purpose of the method: the method reads self._c after (return self._c) or returns it early
+                returns_c = any(isinstance(r, ast.Return) and r.value is not None and any(isinstance(a, ast.Attribute) and a.attr == c for a in ast.walk(r.value)) for r in ast.walk(f))
+                if not returns_c:
+                    continue
+                # dependencies of the stored value: attributes of self read by the statements of the guarded block (and property expansions)
+                guard = tests_attr[c][0]
+                if any(n is x for s_ in guard.body for x in ast.walk(s_)):
+                    stmts = list(guard.body)
+                else:
+                    # early-return style: `if self._c and <valid>: return self._c` ... compute ... `self._c = E`: everything after the guard
+                    stmts = [s_ for s_ in f.body if getattr(s_, 'lineno', 0) > guard.lineno and getattr(s_, 'lineno', 0) <= n.lineno]
+                scope = ast.Module(body=stmts or [n], type_ignores=[])
+                deps = attr_reads(scope, methods) - {c}
+                companions = set(x.attr for s_ in (stmts or [n]) for t_ in ast.walk(s_) if isinstance(t_, (ast.Assign, ast.AugAssign))
+                                 for tg in (t_.targets if isinstance(t_, ast.Assign) else [t_.target]) for x in ast.walk(tg)
+                                 if isinstance(x, ast.Attribute) and isinstance(x.value, ast.Name) and x.value.id == 'self')
+                validated = set()
+                for g in tests_attr[c]:
+                    for a in ast.walk(g.test):
+                        if isinstance(a, ast.Attribute) and isinstance(a.value, ast.Name) and a.value.id == 'self' and a.attr != c:
+                            validated.add(a.attr)
+                    # locals compared in the guard: their own attribute sources count as validated
+                    names = set(x.id for x in ast.walk(g.test) if isinstance(x, ast.Name) and x.id != 'self')
+                    for s in ast.walk(f):
+                        if isinstance(s, ast.Assign) and isinstance(s.targets[0], ast.Name) and s.targets[0].id in names:
+                            validated |= attr_reads(ast.Module(body=[s], type_ignores=[]), methods)
+                am = AttrMemo(cname, mname, c, f, n, deps, validated)
+                am.companions = companions
+                out.append(am)
+    return out
+
+
+def stale_writers(minfo, family, memo, lazy=()):
+    """[(class, method, attribute, node)]: methods that assign a dependency of the memo without resetting the memo.
+    ``lazy``: attributes that are themselves memo fills (lazy initialisation is not a change of state)"""
+    out = []
+    need = memo.deps - memo.validated - set(lazy)
+    for cname in family:
+        for mname, f in class_methods(minfo, cname).items():
+            if mname == '__init__' or (cname == memo.cls and mname == memo.method):
+                continue
+            assigned = {}
+            resets = False
+            for n in ast.walk(f):
+                if isinstance(n, (ast.Assign, ast.AugAssign)):
+                    tg = n.targets if isinstance(n, ast.Assign) else [n.target]
+                    for t in tg:
+                        for x in ast.walk(t):
+                            if isinstance(x, ast.Attribute) and isinstance(x.value, ast.Name) and x.value.id == 'self' and isinstance(x.ctx, ast.Store):
+                                if x.attr == memo.attr:
+                                    resets = True
+                                elif x.attr in need:
+                                    assigned.setdefault(x.attr, n)
+            if assigned and not resets:
+                for a, node in assigned.items():
+                    out.append((cname, mname, a, node))
+    return out
